@@ -136,6 +136,100 @@ func (s *c14Server) ServeHTTP(w http.ResponseWriter, r *http.Request) {
 	}
 }
 
+type c14Trace struct {
+	Ev  string
+	ID  string
+	Key uint64
+}
+
+// turn the traced steps into model actions: every lock hold that carries a job becomes a holder
+// (acquire+enqueue at the lock event, release at the unlock event); holds without a job (the outer lock of a range
+// query) are not modelled. Returns the lockOf table and the action list.
+func c14Actions(tr []c14Trace) (string, string, map[string]int) {
+	stat := map[string]int{}
+	lkID := map[string]int{}
+	keyID := map[uint64]int{}
+	id := func(m map[string]int, k string) int {
+		if _, ok := m[k]; !ok {
+			m[k] = len(m) + 1
+		}
+		return m[k]
+	}
+	kid := func(k uint64) int {
+		if _, ok := keyID[k]; !ok {
+			keyID[k] = len(keyID) + 1
+		}
+		return keyID[k]
+	}
+	lockIDOf := func(t c14Trace) string { // the lock id that guards a job, from what the worker sees
+		parts := strings.SplitN(t.ID, "\x00", 2)
+		if len(parts) != 2 {
+			return "?"
+		}
+		if parts[0] == promapi.APIPathQueryRange {
+			return strconv.FormatUint(t.Key, 10)
+		}
+		if parts[0] == promapi.APIPathConfig || parts[0] == promapi.APIPathFlags {
+			return parts[0]
+		}
+		return parts[0] + parts[1]
+	}
+	// pass 1: the job of every lock hold
+	jobOf := map[int]uint64{} // index of lock event -> cache key
+	hasJob := map[int]bool{}
+	open := map[string]int{} // lock id -> index of its lock event
+	for i, t := range tr {
+		switch t.Ev {
+		case "lock":
+			open[t.ID] = i
+		case "unlock":
+			delete(open, t.ID)
+		case "take":
+			if li, ok := open[lockIDOf(t)]; ok && !hasJob[li] {
+				jobOf[li], hasJob[li] = t.Key, true
+			} else {
+				stat["take-without-lock-hold"]++
+			}
+		}
+	}
+	// pass 2
+	var acts []string
+	table := map[int]int{}
+	var tab []string
+	holderOfKey := map[uint64]int{} // cache key -> lk id of the hold that carries it now
+	openJob := map[string]bool{}
+	for i, t := range tr {
+		switch t.Ev {
+		case "lock":
+			if hasJob[i] {
+				l, k := id(lkID, t.ID), kid(jobOf[i])
+				if old, ok := table[k]; ok && old != l {
+					stat["cache-key-under-two-lock-keys"]++
+				} else if !ok {
+					table[k] = l
+					tab = append(tab, fmt.Sprintf("%d=%d", k, l))
+				}
+				acts = append(acts, fmt.Sprintf("acquire:%d:%d", l, k), fmt.Sprintf("enqueue:%d", l))
+				holderOfKey[jobOf[i]] = l
+				openJob[t.ID] = true
+			} else {
+				stat["lock-hold-without-job"]++
+			}
+		case "unlock":
+			if openJob[t.ID] {
+				acts = append(acts, fmt.Sprintf("release:%d", id(lkID, t.ID)))
+				delete(openJob, t.ID)
+			}
+		case "take", "hit", "miss", "unsupported", "send", "resperr", "set":
+			acts = append(acts, fmt.Sprintf("%s:%d", t.Ev, holderOfKey[t.Key]))
+		case "respok":
+			acts = append(acts, fmt.Sprintf("respok:%d:1", holderOfKey[t.Key]))
+		}
+		stat["ev:"+t.Ev]++
+	}
+	return strings.Join(tab, ","), strings.Join(acts, " "), stat
+}
+
 type c14Case struct {
 	Workers    int      `json:"concurrency"`
 	Callers    int      `json:"callers"`
@@ -247,6 +341,16 @@ func c14Eval(r *hx.Run, cs c14Case) {
 	fg.StartWorkers(reg)
 	defer fg.Close(reg)
 
+	var tmu sync.Mutex
+	var trace []c14Trace
+	tf := func(ev, id string, key uint64) {
+		tmu.Lock()
+		trace = append(trace, c14Trace{ev, id, key})
+		tmu.Unlock()
+	}
+	promapi.VerifTraceFn.Store(&tf)
+	defer promapi.VerifTraceFn.Store(nil)
+
 	var mu sync.Mutex
 	var results []c14Result
 	var wg sync.WaitGroup
@@ -282,6 +386,33 @@ func c14Eval(r *hx.Run, cs c14Case) {
 	r.Count(fmt.Sprintf("workers:%d", cs.Workers))
 	r.CountN("requests", len(events)/2)
 	r.CountN("calls", len(results))
+
+	// the traced steps of the real request path must be a run of the model (Flight.runActs accepts it)
+	// slice goroutines of a range query release their lock after the caller has its result: wait for them
+	var tr []c14Trace
+	for w := 0; w < 400; w++ {
+		tmu.Lock()
+		tr = append([]c14Trace{}, trace...)
+		tmu.Unlock()
+		n := 0
+		for _, t := range tr {
+			switch t.Ev {
+			case "lock":
+				n++
+			case "unlock":
+				n--
+			}
+		}
+		if n == 0 {
+			break
+		}
+		time.Sleep(5 * time.Millisecond)
+	}
+	tab, acts, tstat := c14Actions(tr)
+	for k, v := range tstat {
+		r.CountN("trace:"+k, v)
+	}
+	r.Op(fmt.Sprintf("flightrun\t%d\t%s\t%s", cs.Workers, tab, acts), "accepted peak-ok=true holders-left=0")
 
 	// the Lean driver decides the same predicates on the same log
 	var enc []string
